@@ -209,12 +209,17 @@ def _lin_cases(rng, tier, cs):
             dom, dk = _space(rng, n)
             if solver == 'SCG':
                 M = _spd(rng, n, ill=rng.random() < 0.25)
-                if rng.random() < 0.15:
-                    M = np.diag([float(rng.choice([1, 2]))] * n)     # repeated eigenvalues: early exact stop
+                exact_stop = rng.random() < 0.2
+                if exact_stop:
+                    M = np.diag([float(rng.choice([1, 2]))] * n)     # one eigenvalue: exact after 1 step, then `return`
                 ran, m = dom, n
             else:
                 m = rng.randint(1, 4)
                 M = _imat(rng, m, n)
+                exact_stop = solver == 'SCGN' and rng.random() < 0.2
+                if exact_stop:
+                    m = n
+                    M = np.diag([float(rng.choice([1, 2]))] * n)
                 if dk == 'rn':
                     ran = odl.rn(m)
                 elif dk == 'rn-const-weight':
@@ -230,6 +235,8 @@ def _lin_cases(rng, tier, cs):
                 # floats iterate on rounding noise once the exact recursion has stopped; that regime is
                 # probed separately (finding cgn-past-convergence-blowup), not part of the model comparison
                 niter = min(niter, min(m, n) + 1)
+                if exact_stop:
+                    niter = rng.choice([2, 3, 5])   # all arithmetic exact: the `== 0` tests fire in floats too
             omega = rng.choice(DY) / max(1.0, float(np.sum(M * M)))
             omega = float(2.0 ** np.round(np.log2(omega)))
             x = dom.element(x0)
@@ -317,7 +324,8 @@ def _pm_cases(rng, tier, cs):
         else:
             m = rng.randint(1, 4)
             M = _imat(rng, m, n)
-            if rng.random() < 0.15:
+            zero_reach = rng.random() < 0.2
+            if zero_reach:
                 M[:, 0] = 0.0
             ran = (odl.rn(m) if dk == 'rn' else odl.rn(m, weighting=dom.weighting.const) if dk == 'rn-const-weight'
                    else odl.uniform_discr(0, m * dom.cell_volume, m))
@@ -327,7 +335,7 @@ def _pm_cases(rng, tier, cs):
         r = rng.random()
         if r < 0.1:
             x0 = [0.0] * n
-        elif r < 0.25:
+        elif r < 0.25 or (not selfadj and zero_reach):
             x0 = [1.0] + [0.0] * (n - 1)
         maxiter = rng.choice([1, 2, 3, 4, 6]) * (1 if selfadj else 2)
         exact = rng.random() < 0.5
@@ -372,14 +380,31 @@ def _pdhg_cases(rng, tier, cs):
         tr = []
         obs = given or rng.random() < 0.5     # defaults (x_relax = x.copy(), y = 0) cannot be observed afterwards
         kw = dict(x_relax=xr, y=y) if obs else {}
+        acc = 'None'
+        accd = None
+        if rng.random() < 0.3:
+            primal = rng.random() < 0.5
+            gamma = rng.choice([0.5, 1.0, 0.25])
+            kw['gamma_primal' if primal else 'gamma_dual'] = gamma
+            roots, t_, s_ = [], tau, sigma
+            for _k in range(niter):           # the same float operations as the loop body
+                r_ = float(np.sqrt(1 + 2 * gamma * (t_ if primal else s_)))
+                th_ = float(1 / r_)
+                roots.append(r_)
+                if primal:
+                    t_, s_ = t_ * th_, s_ / th_
+                else:
+                    t_, s_ = t_ / th_, s_ * th_
+            acc = '(Some (%s, %s, %s))' % (C.b(primal), C.q(gamma), C.qs(roots))
+            accd = {'primal': primal, 'gamma': gamma}
         odl.solvers.pdhg(x, f, g, L, niter, tau=tau, sigma=sigma, theta=theta, callback=_cb(tr), **kw)
-        term = 'CPdhg ' + _rec(ph_f=ft, ph_g=gt, ph_M=C.qss(M.tolist()), ph_Mt=C.qss(Mt.tolist()), ph_tau=C.q(tau),
+        term = 'CPdhg ' + _rec(ph_acc=acc, ph_f=ft, ph_g=gt, ph_M=C.qss(M.tolist()), ph_Mt=C.qss(Mt.tolist()), ph_tau=C.q(tau),
                                ph_sigma=C.q(sigma), ph_theta=C.q(theta), ph_x0=C.qs(x0), ph_xr0=C.qs(xr0),
                                ph_y0=C.qs(y0), ph_niter=C.nat(niter), ph_trace=C.qss(tr), ph_obs=C.b(obs), ph_xr=C.qs(_flat(xr)),
                                ph_y=C.qs(_flat(y)))
         cs.add(term, {'solver': 'pdhg', 'op': lk, 'f': fk, 'g': gk, 'M': M.tolist(), 'tau': tau, 'sigma': sigma,
-                      'theta': theta, 'x0': x0, 'niter': niter},
-               ('pdhg', lk, ft, gt, str(M.tolist()), tau, sigma, theta, tuple(x0), niter) if _moved(x0, tr) else None)
+                      'theta': theta, 'x0': x0, 'niter': niter, 'acceleration': accd},
+               ('pdhg', lk, ft, gt, str(M.tolist()), tau, sigma, theta, tuple(x0), niter, str(accd)) if _moved(x0, tr) else None)
 
 
 def _admm_cases(rng, tier, cs):
@@ -473,10 +498,12 @@ def fb_alias_variant():
     return None
 
 
-def _blocks(rng, dom_space, nb):
+def _blocks(rng, dom_space, nb, lkinds=None):
+    """nb blocks (L_i, g_i, sigma_i) and, when lkinds is given, sometimes a functional l_i of one of these kinds"""
     import odl
     n = _size(dom_space)
-    Ls, gs, terms, desc = [], [], [], []
+    Ls, gs, ls, terms, desc = [], [], [], [], []
+    with_l = bool(lkinds) and nb > 0 and rng.random() < 0.4
     for _ in range(nb):
         kind = rng.choice(['matrix', 'matrix', 'scaled-id'])
         if kind == 'matrix':
@@ -487,12 +514,17 @@ def _blocks(rng, dom_space, nb):
         g, gt, gk = _fn(rng, L.range, DUAL_KINDS)
         sig = rng.choice(DY)
         M, Mt = _matrix(L), _matrix(L.adjoint)
+        lt, lk = 'None', None
+        if with_l:
+            lf, lterm, lk = _fn(rng, L.range, lkinds)
+            ls.append(lf)
+            lt = '(Some %s)' % lterm
         Ls.append(L)
         gs.append(g)
         terms.append((_rec(pb_g=gt, pb_M=C.qss(M.tolist()), pb_Mt=C.qss(Mt.tolist()), pb_sigma=C.q(sig),
-                           pb_n=C.nat(_size(L.range))), sig))
-        desc.append({'M': M.tolist(), 'g': gk, 'sigma': sig})
-    return Ls, gs, terms, desc
+                           pb_n=C.nat(_size(L.range)), pb_l=lt), sig))
+        desc.append({'M': M.tolist(), 'g': gk, 'sigma': sig, 'l': lk})
+    return Ls, gs, (ls if with_l else None), terms, desc
 
 
 def _fb_cases(rng, tier, cs, alias):
@@ -508,13 +540,14 @@ def _fb_cases(rng, tier, cs, alias):
                                  sm_b=C.qs([0.0] * n)), 'zero')
         else:
             h, hterm, hd = _smooth(rng, space)
-        Ls, gs, terms, desc = _blocks(rng, space, rng.randint(1, 2))
+        Ls, gs, ls, terms, desc = _blocks(rng, space, rng.choice([0, 1, 1, 2]), ['l2sq', 'tr-l2sq'])
         tau = rng.choice(DY)
         x0 = _ivec(rng, n, -3, 3)
         niter = rng.choice([0, 1, 2, 3, 5])
         x = space.element(x0)
         tr = []
-        odl.solvers.forward_backward_pd(x, f, gs, Ls, h, tau, [t[1] for t in terms], niter, callback=_cb(tr))
+        kw = {'l': ls} if ls is not None else {}
+        odl.solvers.forward_backward_pd(x, f, gs, Ls, h, tau, [t[1] for t in terms], niter, callback=_cb(tr), **kw)
         term = 'CFb ' + _rec(fb_f=ft, fb_h=hterm, fb_blocks=C.lst([t[0] for t in terms]), fb_tau=C.q(tau),
                              fb_x0=C.qs(x0), fb_niter=C.nat(niter), fb_alias=C.b(bool(alias)), fb_trace=C.qss(tr))
         cs.add(term, {'solver': 'forward_backward_pd', 'f': fk, 'h': hd, 'blocks': desc, 'tau': tau, 'x0': x0,
@@ -529,7 +562,7 @@ def _dr_cases(rng, tier, cs):
         n = rng.randint(1, 3)
         space = odl.rn(n)
         f, ft, fk = _fn(rng, space, PRIMAL_KINDS)
-        Ls, gs, terms, desc = _blocks(rng, space, rng.randint(1, 3))
+        Ls, gs, ls, terms, desc = _blocks(rng, space, rng.choice([0, 1, 1, 2, 3]), DUAL_KINDS)
         tau = rng.choice(DY)
         x0 = _ivec(rng, n, -3, 3)
         niter = rng.choice([0, 1, 2, 3, 5])
@@ -545,6 +578,8 @@ def _dr_cases(rng, tier, cs):
             kw['lam'] = seq[0] if seq else 1.0
         else:
             kw['lam'] = lambda k: seq[k]
+        if ls is not None:
+            kw['l'] = ls
         odl.solvers.douglas_rachford_pd(x, f, gs, Ls, niter, tau=tau, sigma=[t[1] for t in terms],
                                         callback=_cb(tr), **kw)
         term = 'CDr ' + _rec(dr_f=ft, dr_blocks=C.lst([t[0] for t in terms]), dr_tau=C.q(tau), dr_lams=C.qs(seq),
@@ -579,9 +614,9 @@ def _objective(rng, n):
 _LSRES = {'maxiter': 'RMaxIter', 'zero': 'RZeroDeriv', 'assert': 'RAssert'}
 
 
-def _run_ls(ls, x, d, dd):
+def _run_ls(ls, x, d, dd, omit=False):
     try:
-        a = ls(x, d, dd)
+        a = ls(x, d) if omit else ls(x, d, dd)
         return 'RAlpha %s' % C.q(float(a)), float(a)
     except AssertionError:
         return 'RAssert', None
@@ -622,7 +657,8 @@ def _descent_cases(rng, tier, cs):
             d = sp.element(_ivec(rng, n, -2, 2))
             dd = float(gx.inner(d))
         ls = BacktrackingLineSearch(f, tau=tau, discount=disc, alpha=alpha, max_num_iter=mni, estimate_step=est)
-        res, a = _run_ls(ls, x, d, dd)
+        # dir_derivative=None: the search computes gradient(x).inner(direction) itself
+        res, a = _run_ls(ls, x, d, dd, omit=(r < 0.7 and rng.random() < 0.3))
         first = _rec(ls_obj=ot, ls_tau=C.q(tau), ls_disc=C.q(disc), ls_mni=C.nat(mni), ls_est=C.b(est),
                      ls_alpha=C.q(alpha), ls_x=C.qs(x0), ls_d=C.qs(_flat(d)), ls_dd=C.q(dd), ls_res_=res)
         term = 'CLs ' + first
